@@ -14,7 +14,7 @@ namespace Rzil.Operands
 open Rzil
 
 /-- the enumeration really is the grammar's: 8 classes × 17 access spellings × V/N, 8 immediates -/
-theorem letterSpellings_card : letterSpellings.length = 272 ∧ immSpellings.length = 8 ∧ explicitSingles.length = 320 := by
+theorem letterSpellings_card : letterSpellings.length = 272 ∧ immSpellings.length = 8 ∧ explicitSingles.length = 512 := by
   decide +kernel
 
 def slotNewFlag (b : Binding) : Option Bool :=
